@@ -293,34 +293,44 @@ def check_bits(ctx, u):
     cond_ok = r is not None and ((ref_decl(r[0]) or {}).get('id') == counter['id'] and r[1] == '<' and (ref_decl(r[2]) or {}).get('id') == size_p['id'])
     inc_ok = inc is not None and strip(inc).get('kind') == 'UnaryOperator' and strip(inc).get('opcode') == '++' and (ref_decl(strip(inc)['inner'][0]) or {}).get('id') == counter['id']
     ctx.check(c0 == 0 and cond_ok and inc_ok, R, 'BitReader::pread|loop', loops[0], 'for (k = 0; k < size; k++)', 'loop does not run k = 0 .. size-1 in steps of one')
-    assigns = [x for x in walk(lb) if x.get('kind') == 'BinaryOperator' and x.get('opcode') == '=' and (ref_decl(x['inner'][0]) or {}).get('kind') == 'VarDecl']
     rets = [x for x in walk(body) if x.get('kind') == 'ReturnStmt']
     acc = ref_decl(kids(rets[-1])[0]) if rets and kids(rets[-1]) else None
     ctx.require(acc is not None, 'BitReader::pread: accumulator not found')
-    acc_assign = [a for a in assigns if (ref_decl(a['inner'][0]) or {}).get('id') == acc['id']]
-    ctx.require(len(acc_assign) == 1, 'BitReader::pread: expected one accumulator update in the loop')
     accv = u.by_id.get(acc['id'])
     ctx.check(accv is not None and kids(accv) and int_value(kids(accv)[-1]) == 0, R, 'BitReader::pread|acc-init', accv or f, 'accumulator starts at 0', 'accumulator is not initialised to 0')
-    # bit offset variable: start + k
-    locals_ = [x for x in walk(lb) if x.get('kind') == 'VarDecl' and kids(x)]
-    env_defs = {}
-    for vd in locals_:
-        env_defs[vd['id']] = vd
+    # The loop is unrolled abstractly (bit provenance, no execution) for a spread of sizes and
+    # start offsets: after `size` iterations result bit j must be stream bit start+size-1-j
+    # (stream bit n = bit 7-(n&7) of byte n>>3) and every higher result bit must be 0.
     bad_bits = []
-    for n in range(16):
-        env = {acc['id']: sym_bv('acc', 64, False), start_p['id']: const_bv(0, 64), counter['id']: const_bv(n, 8)}
-        for vd in locals_:
-            env[vd['id']] = I.cast(I.eval(kids(vd)[-1], env), dtype(vd))
-        v = I.eval(acc_assign[0]['inner'][1], env)
-        want0 = ('i', ('mem', 'this.data', '0', n >> 3), 7 - (n & 7))
-        got0 = v.b[0]
-        rest_ok = all(v.b[i + 1] == ('i', 'acc', i) for i in range(62))
-        if got0 != want0 or not rest_ok:
-            bad_bits.append((n, cell_str(got0), cell_str(want0), rest_ok))
-    ctx.check(not bad_bits, R, 'BitReader::pread|msb-first', acc_assign[0], 'stream bit n = bit 7-(n&7) of byte n>>3; accumulator shifts left by one per bit (checked for n = 0..15)',
-              'bit selection is not MSB-first: %s' % ['n=%d: got %s, expected %s, shift-ok=%s' % b for b in bad_bits[:4]])
-    off_def = [vd for vd in locals_ if canon(kids(vd)[-1]) in ('(%s + %s)' % tuple(sorted([counter.get('name'), start_p.get('name')])),)]
-    ctx.check(len(off_def) == 1, R, 'BitReader::pread|offset', lb, 'bit offset = start_offset + k', 'the bit offset is not start_offset + loop counter')
+    unsupported = None
+    aw = (width_of_type(dtype(accv)) or (64, False)) if accv else (64, False)
+    for S in (1, 2, 7, 8, 9, 15, 16, 17, 31, 32, 33, 47, 48, 56, 63, 64):
+        for start in (0, 3, 13):
+            env = {acc['id']: const_bv(0, aw[0], aw[1]), start_p['id']: const_bv(start, 64), size_p['id']: const_bv(S, 8)}
+            I.notes = []
+            try:
+                for k in range(S):
+                    env[counter['id']] = const_bv(k, (width_of_type(dtype(counter)) or (8, False))[0])
+                    I.exec_stmts([lb], env)
+            except Unsupported as e:
+                unsupported = str(e)
+                break
+            v = env[acc['id']]
+            want = []
+            for j in range(v.w):
+                if j < S:
+                    n = start + S - 1 - j
+                    want.append(('i', ('mem', 'this.data', '0', n >> 3), 7 - (n & 7)))
+                else:
+                    want.append(0)
+            bad = expect_lanes(v, want)
+            if bad:
+                bad_bits.append('size=%d start=%d: %s%s' % (S, start, describe_mismatch(bad, 2), ('; ' + I.notes[0]) if I.notes else ''))
+        if unsupported:
+            break
+    ctx.require(unsupported is None, 'BitReader::pread: loop body outside the supported statement forms (%s)' % unsupported)
+    ctx.check(not bad_bits, R, 'BitReader::pread|msb-first', lb, 'for every size 1..64 sampled and three start offsets, result bit j = stream bit start+size-1-j (bit 7-(n&7) of byte n>>3), higher bits 0 (loop unrolled over bit provenance)',
+              'a read of `size` bits does not return the MSB-first value of the stream bits: %s' % '; '.join(bad_bits[:3]))
     # BitReader::read advances by size
     g = u.func('phosg::BitReader::read')[0]
     adv = [x for x in walk(body_of(g)) if x.get('kind') == 'CompoundAssignOperator' and x.get('opcode') == '+=' and canon(x['inner'][0]) == 'this.offset']
@@ -434,7 +444,7 @@ def run(ctx):
     ctx.rule('C01-R2', 'each writer accessor and the reader accessor of the same name use the same wrapper; StringWriter and BufferWriter tables are identical', 100)
     ctx.rule('C01-R3', 'widths: default extent of get/pget<T> is sizeof(T); sequential reads advance by the extent read iff `advance`; put<T> appends exactly sizeof(T) bytes of the value', 60)
     ctx.rule('C01-R4', '24/48-bit accessors: lane maps equal the big/little-endian value of the 3/6 bytes at offset (E-BITS); sequential forms advance by 3/6; signed forms are ext24/ext48 of the unsigned ones', 20)
-    ctx.rule('C01-R5', 'bit packers agree on MSB-first: reader selects bit 7-(n&7) of byte n>>3; writer sets bit u-1 with u unset bits, fresh byte 0x80/7; truncate keeps exactly n bits', 8)
+    ctx.rule('C01-R5', 'bit packers agree on MSB-first: reader selects bit 7-(n&7) of byte n>>3; writer sets bit u-1 with u unset bits, fresh byte 0x80/7; truncate keeps exactly n bits', 7)
     ctx.rule('C01-R6', 'positional writes (StringWriter::pput<T>) grow the string to cover the write, fill the gap with zero bytes, and copy sizeof(T) bytes at offset', 30)
     u = ctx.unit(repo_unit('Strings.cc'))
     tables = check_accessor_table(ctx, u)
